@@ -1099,7 +1099,8 @@ class Interp:
             return ("cls", r.fq)
         if isinstance(r, tuple):
             if r[0] == "const":
-                return ("global", f"{r[1].name}:{name}")
+                lit = self._literal_global(r[1], name, r[2])
+                return lit if lit is not None else ("global", f"{r[1].name}:{name}")
             if r[0] == "ext":
                 return ("ext", r[1])
             if r[0] == "module":
@@ -1109,6 +1110,42 @@ class Interp:
         if hasattr(builtins, name):
             return ("builtin", name)
         return ("free", name)
+
+    def _literal_global(self, mod, name: str, expr) -> Optional[Value]:
+        """A module-level constant whose defining expression is a plain literal (str / bytes / number / bool / None, or a
+        tuple / frozenset / set of those) is the same thing as the literal written in place: moving a literal to a named
+        module constant - or back - must not change what a rule sees. Anything computed (re.compile(...), comprehensions,
+        dicts, calls) keeps its identity as ('global', name)."""
+        cache = self.__dict__.setdefault("_litglob", {}) if hasattr(self, "__dict__") else {}
+        key = (mod.name, name)
+        if key in cache:
+            return cache[key]
+        out: Optional[Value] = None
+        try:
+            scal = (str, bytes, int, float, bool, type(None))
+
+            def lit(e) -> Any:
+                if isinstance(e, ast.Constant) and isinstance(e.value, scal):
+                    return e.value
+                if isinstance(e, ast.Attribute) and isinstance(e.value, ast.Name) and e.value.id == "os" and e.attr in ("pardir", "curdir"):
+                    return {"pardir": "..", "curdir": "."}[e.attr]
+                if isinstance(e, ast.BinOp) and isinstance(e.op, ast.Add):
+                    a, b = lit(e.left), lit(e.right)
+                    if type(a) is type(b) and isinstance(a, (str, bytes)):
+                        return a + b
+                raise ValueError
+            if isinstance(expr, (ast.Tuple, ast.Set)) or (isinstance(expr, ast.Call) and isinstance(expr.func, ast.Name) and expr.func.id in ("frozenset", "tuple") and len(expr.args) == 1
+                                                           and isinstance(expr.args[0], (ast.Tuple, ast.Set, ast.List)) and not expr.keywords):
+                inner = expr if isinstance(expr, (ast.Tuple, ast.Set)) else expr.args[0]
+                vals = tuple(const(lit(x)) for x in inner.elts)
+                is_set = isinstance(expr, ast.Set) or (isinstance(expr, ast.Call) and expr.func.id == "frozenset")
+                out = ("set", vals) if is_set else ("tuple", vals)
+            else:
+                out = const(lit(expr))
+        except Exception:
+            out = None
+        cache[key] = out
+        return out
 
     def e_Attribute(self, e: ast.Attribute, st: State, out):
         res = []
@@ -1130,7 +1167,8 @@ class Interp:
             if isinstance(r, ClassInfo):
                 return ("cls", r.fq)
             if isinstance(r, tuple) and r[0] == "const":
-                return ("global", f"{r[1].name}:{name}")
+                lit = self._literal_global(r[1], name, r[2])
+                return lit if lit is not None else ("global", f"{r[1].name}:{name}")
             if isinstance(r, tuple) and r[0] == "ext":
                 return ("ext", r[1])
         if b[0] == "ext":
